@@ -63,7 +63,7 @@ HOST_CHAINS_THOROUGH = HOST_CHAINS_QUICK + (
 )
 PATHS_QUICK = ("", "/", "/a", "/a/", "/a/b", "/a/b/", "/a/b/c", "/ab", "/b")
 PATHS_THOROUGH = PATHS_QUICK + ("//", "/a//b", "/a/b/c/", "/a/bc", "/a:b", "/a:b/c", "/b/a")
-QF_QUICK = ((None, None), ("q=1", None), (None, "f"), ("q=1", "f"))
+QF_QUICK = ((None, None), ("q=1", None), (None, "f"), ("q=1", "f"), ("next=/", None), ("next=/", "f"))   # the last two: a query that ENDS with a slash
 QF_THOROUGH = QF_QUICK + (("q=1&r", None), ("q=1", "g"), ("", None), (None, ""))
 
 
@@ -119,6 +119,9 @@ class Info(object):
 
 
 def under_strict(a, b):
+    if a.q and not a.f:
+        # u carries a query already: v lies under it when it is u plus a fragment ("v may add ... a fragment"), nothing else
+        return a.scheme == b.scheme and a.port == b.port and a.host == b.host and a.path == b.path and a.q == b.q
     return (a.scheme == b.scheme and a.port == b.port and not a.q and not a.f
             and (a.host == b.host or (a.path == "" and b.host.endswith("." + a.host)))
             and b.path.startswith(a.path) and b.segs[:len(a.base)] == a.base)
